@@ -44,6 +44,20 @@ func VerifLexAll(n int) {
 		verifapi.Assert(verifKnownTok(l.tok), "kind")
 	}
 	verifapi.Reach("eos")
-	verifapi.Classify("consumed/lexer-stops-before-end-at-rune/" + string(l.reader.VerifLast()))
+	// where the lexer gave up: inside a line comment that starts the input (no newline
+	// between the leading '#' and the last rune read), or anywhere else
+	where := ""
+	if !l.reader.VerifAtEOF() && n > 0 && runes[0] == '#' {
+		inComment := true
+		for i := 1; i < l.reader.VerifPos()-1 && i < n; i++ {
+			if runes[i] == '\n' {
+				inComment = false
+			}
+		}
+		if inComment {
+			where = "/inside-a-line-comment-that-starts-the-input"
+		}
+	}
+	verifapi.Classify("consumed/lexer-stops-before-end-at-rune/" + string(l.reader.VerifLast()) + where)
 	verifapi.Assert(l.reader.VerifAtEOF(), "consumed")
 }
